@@ -419,6 +419,7 @@ func init() {
 		}
 		return i.nowValue()
 	}
+	harnessAPI["vNow"] = stubs["time.Now"]
 	harnessAPI["vLocalZone"] = func(fr *frame, args []value) value {
 		fr.i.setLocalZone(args[0])
 		return nil
